@@ -99,4 +99,119 @@ def lawFrame (before after : List ObjV) (k : Option Nat) : Why :=
     if some j == k then none else
     check (after[j]? == before[j]?) s!"write-visible-through-another-object obj={j}"
 
+/-! ### C07 -/
+
+/-- what `At` reports once `c` has been stored in a row that does / does not carry qualities -/
+def shownAs (q : Bool) (c : QL) : QL := if q then c else ⟨c.L, defaultQ⟩
+
+def isAligned (o : ObjV) : Bool := o.kind == "aln" || o.kind == "qaln" || o.kind == "multi"
+
+/-- the cell row `r` shows at absolute position `pos` (`none`: the row does not cover it) -/
+def rowCell (o : ObjV) (r : RowV) (pos : Int) : Option QL :=
+  if o.kind == "multi" then
+    if r.start ≤ pos && pos < r.«end» then r.cells[(pos - r.start).toNat]? else none
+  else r.cells[(pos - o.start).toNat]?
+
+/-- **row_eq_column**: at every position of the span the column view equals the row view,
+    the gap letter standing for rows that do not cover the position; `Column` of a quality
+    alignment applies the documented filter `Q ≥ Threshold` (ambiguity letter below it). -/
+def lawRowEqColumn (gap amb : UInt8) (o : ObjV) : Why :=
+  if !isAligned o then none else
+  let n := (o.«end» - o.start).toNat
+  (check (o.nrows == o.rows.length && o.len == o.«end» - o.start) "rows-len-inconsistent").and fun _ =>
+  (check (o.cols.length == n && o.colsQL.length == n && (o.kind != "multi" || o.colsNF.length == n))
+    "column-count-differs-from-span").and fun _ =>
+  allIdx n fun p =>
+    let pos : Int := o.start + (p : Int)
+    let cells := o.rows.map fun r => rowCell o r pos
+    let wantQL := cells.map fun c => c.getD ⟨gap, 0⟩
+    let wantL := cells.map fun c => match c with
+      | some c => if o.kind == "qaln" && c.Q < alnThreshold then amb else c.L
+      | none => gap
+    (check (o.colsQL[p]? == some wantQL) s!"ColumnQL-differs-from-Row.At pos={pos}").and fun _ =>
+    (check (o.cols[p]? == some wantL) s!"Column-differs-from-Row.At pos={pos}").and fun _ =>
+    if o.kind == "multi" then
+      check (o.colsNF[p]? == some (cells.filterMap fun c => c.map (·.L))) s!"Column-nofill-differs pos={pos}"
+    else none
+
+/-- **unanimous_consensus**: a column in which every row holds the same valid letter has that
+    letter, up to case, as its count-based consensus -/
+def lawConsensus (valid : UInt8 → Bool) (o : ObjV) : Why :=
+  if !isAligned o || o.rows.isEmpty then none else
+  let n := (o.«end» - o.start).toNat
+  allIdx n fun p =>
+    let pos : Int := o.start + (p : Int)
+    let cells := o.rows.map fun r => rowCell o r pos
+    match cells with
+    | some c0 :: _ =>
+      if cells.all (fun c => match c with
+            | some c => toLower c.L == toLower c0.L && valid c.L && (o.kind != "qaln" || c.Q ≥ alnThreshold)
+            | none => false) then
+        check ((o.cons[p]?).map toLower == some (toLower c0.L)) s!"unanimous-column-consensus-differs pos={pos}"
+      else none
+    | _ => none
+
+def sameMeta (b a : RowV) : Bool := a.name == b.name && a.strand == b.strand && a.q == b.q
+
+/-- **append_exact** for `AppendColumns(cols...)` (every column as high as the alignment):
+    row `i` is extended by `cols[0][i], cols[1][i], …`; nothing before moves -/
+def lawAppendCols (b a : ObjV) (cols : List (List QL)) : Why :=
+  (check (a.rows.length == b.rows.length && a.nrows == b.nrows) "append-changed-row-count").and fun _ =>
+  allIdx b.rows.length fun i =>
+    match b.rows[i]?, a.rows[i]? with
+    | some rb, some ra =>
+      check (ra.cells == rb.cells ++ cols.map (fun c => shownAs rb.q (c.getD i zeroQL)) &&
+             ra.start == rb.start && ra.«end» == rb.«end» + cols.length && sameMeta rb ra)
+        s!"AppendColumns-row-not-extended-exactly row={i}"
+    | _, _ => some "append-shape"
+
+/-- **append_exact** for `AppendEach(runs)` (one run per row): column-stored alignments pad the
+    shorter runs with the gap letter, row-stored ones extend every row by its own run -/
+def lawAppendEach (gap : UInt8) (b a : ObjV) (runs : List (List QL)) : Why :=
+  let mx := runs.foldl (fun m r => Nat.max m r.length) 0
+  (check (a.rows.length == b.rows.length && a.nrows == b.nrows) "append-changed-row-count").and fun _ =>
+  allIdx b.rows.length fun i =>
+    match b.rows[i]?, a.rows[i]? with
+    | some rb, some ra =>
+      let run := runs.getD i []
+      let ext := if b.kind == "multi" then run else run ++ List.replicate (mx - run.length) ⟨gap, 0⟩
+      check (ra.cells == rb.cells ++ ext.map (shownAs rb.q) &&
+             ra.start == rb.start && ra.«end» == rb.«end» + ext.length && sameMeta rb ra)
+        s!"AppendEach-row-not-extended-exactly row={i}"
+    | _, _ => some "append-shape"
+
+/-- **delete_exact** -/
+def lawDelete (b a : ObjV) (i : Nat) : Why :=
+  check (a.rows == b.rows.eraseIdx i && a.nrows + 1 == b.nrows) "Delete-did-not-remove-exactly-the-indexed-row"
+
+/-- **flush_preserves**: rows are padded with the fill letter up to the span's start / end
+    (bit 0 / bit 1 of `where`); every original letter keeps its position -/
+def lawFlush (b a : ObjV) (wh : Nat) (fill : UInt8) : Why :=
+  (check (a.rows.length == b.rows.length) "flush-changed-row-count").and fun _ =>
+  allIdx b.rows.length fun i =>
+    match b.rows[i]?, a.rows[i]? with
+    | some rb, some ra =>
+      let st := if wh % 2 == 1 then b.start else rb.start
+      let en := if (wh / 2) % 2 == 1 then b.«end» else rb.«end»
+      let pad : QL := shownAs rb.q ⟨fill, 0⟩
+      check (ra.start == st && ra.«end» == en && sameMeta rb ra &&
+             ra.cells == List.replicate (rb.start - st).toNat pad ++ rb.cells ++ List.replicate (en - rb.«end»).toNat pad)
+        s!"Flush-row-not-padded-in-place row={i}"
+    | _, _ => some "flush-shape"
+
+/-- the range `[st,en)` is covered by every row -/
+def allCover (o : ObjV) (st en : Int) : Bool :=
+  st ≤ en && o.rows.all fun r => r.start ≤ st && en ≤ r.«end»
+
+/-- **subseq_truncate_exact**: exactly the requested columns are kept -/
+def lawRange (b a : ObjV) (st en : Int) : Why :=
+  (check (a.rows.length == b.rows.length) "range-changed-row-count").and fun _ =>
+  allIdx b.rows.length fun i =>
+    match b.rows[i]?, a.rows[i]? with
+    | some rb, some ra =>
+      check (ra.start == st && ra.«end» == en && sameMeta rb ra &&
+             ra.cells == (rb.cells.drop (st - rb.start).toNat).take (en - st).toNat)
+        s!"range-row-not-exactly-the-requested-columns row={i}"
+    | _, _ => some "range-shape"
+
 end Biogo.Containers.Laws
